@@ -78,15 +78,20 @@ pub async fn reentrant_queries(prov: &Prov, cache: &SolverCache<Prov>, solvables
             }
         }
     }
-    // an impatient provider: polls a dependency query once and abandons it when it is not ready
-    // (what a timeout or select! does); whoever waits on that request has to start over
+    // an impatient provider: starts dependency queries, polls each once and - when they are not
+    // ready - keeps them alive while it waits for its other queries (so that requests of the solver
+    // for the same solvable queue up behind them), then abandons them: what a timeout or select!
+    // does. Whoever waits on such a request has to start over.
+    let mut held = vec![];
+    let mut held_ids: Vec<SolvableId> = vec![];
     if prov.abandon.get() {
         for &s in solvables.iter().rev().take(2) {
             let mut fut = Box::pin(cache.get_or_cache_dependencies(s));
             if std::future::poll_fn(|cx| std::task::Poll::Ready(std::future::Future::poll(fut.as_mut(), cx))).await.is_pending() {
                 prov.abandoned.set(prov.abandoned.get() + 1);
+                held.push(fut);
+                held_ids.push(s);
             }
-            drop(fut);
         }
     }
     for &s in solvables.iter().take(3) {
@@ -99,7 +104,11 @@ pub async fn reentrant_queries(prov: &Prov, cache: &SolverCache<Prov>, solvables
                 obs.push(format!("re-entrant candidates of {} differ from the provider's list", u.pkgs[name as usize].name));
             }
         }
-        // dependencies of the solvables being sorted (a real provider does this to break ties)
+        // dependencies of the solvables being sorted (a real provider does this to break ties);
+        // never wait for a request this provider itself is sitting on
+        if held_ids.contains(&s) {
+            continue;
+        }
         if let Ok(_d) = cache.get_or_cache_dependencies(s).await {
             n += 1;
             if !cache.are_dependencies_available_for(s) {
@@ -122,6 +131,7 @@ pub async fn reentrant_queries(prov: &Prov, cache: &SolverCache<Prov>, solvables
             }
         }
     }
+    drop(held);
     prov.reentrant_queries.set(prov.reentrant_queries.get() + n);
     prov.reentrant_obs.borrow_mut().extend(obs);
 }
